@@ -13,7 +13,7 @@ import statsmodels.formula.api as smf
 import gen
 from common import fx, unfx, rq, enc_list, close
 
-REQUIRED = ['iptw_weight_spec', 'smr_is_odds', 'iptw_bounded_spec', 'outcome_ipmw_spec', 'stoch_numer',
+REQUIRED = ['iptw_weight_spec', 'smr_is_odds', 'iptw_bounded_spec', 'iptw_bound_collection_spec', 'outcome_ipmw_spec', 'stoch_numer',
             'stoch_weight_spec', 'ipmw_monotone', 'ipmw_unobserved_none', 'ipmw_fit_sets', 'ipmw_uniform_collapse',
             'ipmw_recovers_n', 'ipcw_cumprod', 'ipcw_time_order', 'ipcw_subject_local', 'sort_sorted_perm',
             'uncensored_char', 'flat_uncensored_char',
@@ -34,7 +34,13 @@ RULE = ('IPTW: random data sets (n 150-400) with a 2-3 level categorical, a bina
         'malformed stream (non-monotone rows incl. one confined to the first row, a variable without NaN); IPCW: long '
         'person-period tables (10-60 subjects, 2-7 unit intervals, fractional last interval, administrative censoring '
         'at the maximum time) given sorted and shuffled with default and non-default index labels, and flat tables '
-        'through _dataprep.  distinct = (frame hash, class, options); non-trivial = weights are not all equal and, for '
+        'through _dataprep; every documented spelling of `bound` for treatment_model / missing_model (tuple, a limit of '
+        'exactly 0 or 1 as float and as int, collections of 3-4 entries with trailing entries above / below / between the '
+        'limits or equal to 0, numpy.float64 scalars, equal limits, [0, 1], the falsy 0.0) with limits drawn from the data '
+        'set\'s own fitted probabilities, x target x stabilization; data sets of ordinary cohort size, regenerated from a '
+        'stored recipe on replay: one long IPCW table of 3000-4000 subjects (>= 10^4 person-period rows, product of all '
+        'fitted probabilities below the smallest double), one IPTW and one IPMW data set of 4000-9000 rows (more and '
+        'larger in the thorough tier).  distinct = (frame hash, class, options); non-trivial = weights are not all equal and, for '
         'bounded cells, at least one prediction is actually clipped / for IPMW at least two fitted factors or a '
         'collapsed uniform pair / for IPCW at least one subject censored before the maximum time')
 ASSUMPTIONS = ['statsmodels GLM (Binomial, logit, optional freq_weights) returns the maximum-likelihood fit: measured on a '
@@ -1152,7 +1158,7 @@ def run_ipcw(chk, drv, rng, tier):
     # The frame is regenerated from the stored recipe on replay.
     for i in range(1 if tier == 'quick' else 5):
         args = dict(seed=int(rng.integers(0, 2 ** 31 - 1)), nsub=int(rng.integers(3000, 4000)) * (3 if i >= 3 else 1),
-                    tau=int(rng.integers(5, 9)), cens=float(np.round(rng.uniform(0.08, 0.13), 3)),
+                    tau=int(rng.integers(5, 9)), cens=float(np.round(rng.uniform(0.09, 0.14), 3)),
                     ev=float(np.round(rng.uniform(0.02, 0.05), 3)), ids=['consecutive', 'sparse'][int(rng.integers(0, 2))])
         gspec = dict(name='cohort', args=args, order=['shuffled', 'sorted'][int(rng.integers(0, 2))],
                      index=['default', 'shifted', 'shuffled'][int(rng.integers(0, 3))],
